@@ -5,6 +5,7 @@ mod ev;
 mod extract;
 mod payload;
 mod sized;
+mod thin;
 mod trace;
 
 use serde_json::{json, Value};
@@ -86,6 +87,7 @@ fn replay(args: &[String]) {
         }
         let errs = match family {
             "sized" => sized::replay_line(nslots, h, x),
+            "thin" => thin::replay_line(nslots, h, x),
             _ => usage(),
         };
         n_replayed += 1;
